@@ -101,7 +101,7 @@ def run(chk):
                     "const viaForIn: string[] = []; for (const key in ns) viaForIn.push(key);\n"
                     "[Object.keys(ns).join(), viaForIn.join(), Object.entries(ns).map((e) => e[0]).join(), Object.keys({ ...ns }).join()].join('|')" % k)
             progs.append(("modules:%d:%d" % (k, variant), {"src": main, "path": "/c12m/main.ts", "modules": {"/c12m/lib%d" % k: lib}}))
-    n_gen = 30 if chk.tier == "quick" else 300
+    n_gen = 30 if chk.tier == "quick" else 1500
     for i in range(n_gen):
         g = genprog.Gen(rng, features={}, ts=True)
         progs.append(("generated:%d" % i, {"src": g.program(5, 3), "path": "/c12_g%d.ts" % i}))
